@@ -14,7 +14,10 @@ One case per line:   `KIND MODE FILE*`
         (getbline) see the bytes; F, G (std.c over real files) and P, Q, Z (std.c + sio/tio over a pipe fed in byte
         chunks) are run without cuts — the chunking below the console handler is not the model's business, the theorems
         say it does not matter; Z prints the same line once per byte chunking.
-Output: `r<nr>:<fnr>:<filename>:<hex rec>:<pos>:<len>:<eof>` per record, then `e<eos>:<pos>:<len>:<eof>`.
+* MODE may carry a program, `<mode>@<letter><k>` (nextfile, getline, a side stream with close(): see harness/readio_h.c);
+        the FILE named `side` is the side stream, words `%a` / `%e` (ARGV entries that are no files) are skipped.
+Output: `r<nr>:<fnr>:<filename>:<hex rec>:<pos>:<len>:<eof>` per record (`r0:<n>:side:…` for a side record, with the
+        console's pos/len/eof), then `e<eos>:<pos>:<len>:<eof>`.
 -/
 namespace Hawk.Drv.ReadIo
 open Hawk.ReadIo
@@ -153,22 +156,93 @@ def showSt (st : InState) : String :=
   -- the C's pos after a size_t wrap is any value ≥ len; canonical form: min pos len
   s!"{min st.pos st.len}:{st.len}:{b st.eof}"
 
-/-- run the console loop, printing the state after every record -/
-partial def runShow (hx : List Char → String) (mode : Mode) (con : Console) (acc : List String) : List String :=
-  match readRecordConsole mode con with
-  | (none, con') => (s!"e{b con'.eos}:{showSt con'.st}" :: acc).reverse
-  | (some r, con') =>
-    let line := s!"r{con'.nr}:{con'.fnr}:{con'.filename}:{hx r}:{showSt con'.st}"
-    if con'.pendingLen < con.pendingLen then runShow hx mode con' (line :: acc) else ("HANG" :: line :: acc).reverse
+/-- the program run by the harness (see harness/readio_h.c): letter and its number -/
+structure Prog where
+  letter : Char := ' '
+  k : Nat := 1
+
+def parseProg (s : String) : Prog :=
+  match s.toList with
+  | [] => {}
+  | c :: r => { letter := c, k := match (String.ofList r).toNat? with | some n => if n == 0 then 1 else n | none => 1 }
+
+/-- state of the simulated program: the console, the side stream (`getline y < "side"`), its record counter -/
+structure PS where
+  con : Console
+  sideSt : InState := {}
+  sideCur : Stream := []
+  sideFull : Stream := []
+  sn : Nat := 0
+  acc : List String := []
 
 def mkConsole (files : List (String × Stream)) : Console :=
   match files with
   | [("", cs)] => openConsole cs []
   | fs => openConsole [] fs
 
-def runCase (hx : List Char → String) (mode : Mode) (files : List (String × List Char × List Nat)) : String :=
+/-- run the program, printing the console's read-buffer state after every print statement -/
+partial def runProg (hx : List Char → String) (mode : Mode) (pg : Prog) (ps : PS) : List String :=
+  let pr (c : Console) (r : Record) : String := s!"r{c.nr}:{c.fnr}:{c.filename}:{hx r}:{showSt c.st}"
+  -- one `getline y < "side"`: prints the record if there is one
+  let sideRead (ps : PS) : PS :=
+    match readRecord mode ps.sideSt ps.sideCur with
+    | (some y, st', cur') =>
+      { ps with sideSt := st', sideCur := cur', sn := ps.sn + 1,
+                acc := s!"r0:{ps.sn + 1}:side:{hx y}:{showSt ps.con.st}" :: ps.acc }
+    | (none, st', cur') => { ps with sideSt := st', sideCur := cur' }
+  -- END block / end of the BEGIN loop
+  let rec drain (ps : PS) (fuel : Nat) : PS :=
+    match fuel with
+    | 0 => ps
+    | fuel + 1 =>
+      match readRecord mode ps.sideSt ps.sideCur with
+      | (some _, _, _) => drain (sideRead ps) fuel
+      | (none, _, _) => ps
+  let finish (ps : PS) : List String :=
+    let ps := if pg.letter == 'S' || pg.letter == 'K' || pg.letter == 'L' then drain ps ((pending ps.sideSt ps.sideCur).length + 1) else ps
+    (s!"e{b ps.con.eos}:{showSt ps.con.st}" :: ps.acc).reverse
+  -- the `nextfile` statement; `none`: no further stream, the main loop ends
+  let nextf (c : Console) : Option Console × Console :=
+    match nextFile c with
+    | some c2 => (some c2, c2)
+    | none => (none, { c with eos := true })
+  match readRecordConsole mode ps.con with
+  | (none, con') => finish { ps with con := con' }
+  | (some r, con') =>
+    if ¬ (con'.pendingLen < ps.con.pendingLen) then ("HANG" :: pr con' r :: ps.acc).reverse else
+    let ps := { ps with con := con', acc := pr con' r :: ps.acc }
+    -- a plain `getline` / `getline v` from the console: one more call of readRecordConsole
+    let getl (ps : PS) : PS :=
+      match readRecordConsole mode ps.con with
+      | (some r2, c2) => { ps with con := c2, acc := pr c2 r2 :: ps.acc }
+      | (none, c2) => { ps with con := c2 }
+    match pg.letter with
+    | 'N' =>
+      if ps.con.fnr == pg.k then
+        match nextf ps.con with
+        | (some _, c2) => runProg hx mode pg { ps with con := c2 }
+        | (none, c2) => finish { ps with con := c2 }
+      else runProg hx mode pg ps
+    | 'G' | 'V' => runProg hx mode pg (if ps.con.nr % pg.k == 0 then getl ps else ps)
+    | 'M' =>
+      let ps := if ps.con.nr % 2 == 0 then getl ps else ps
+      if ps.con.fnr ≥ pg.k then
+        match nextf ps.con with
+        | (some _, c2) => runProg hx mode pg { ps with con := c2 }
+        | (none, c2) => finish { ps with con := c2 }
+      else runProg hx mode pg ps
+    | 'S' | 'K' | 'L' => runProg hx mode pg (if ps.con.nr % pg.k == 0 then sideRead ps else ps)
+    | 'C' | 'R' =>
+      let ps := sideRead ps
+      let ps := if ps.con.nr % pg.k == 0 then { ps with sideSt := {}, sideCur := ps.sideFull, sn := 0 } else ps
+      runProg hx mode pg ps
+    | _ => runProg hx mode pg ps
+
+def runCase (hx : List Char → String) (mode : Mode) (pg : Prog) (files : List (String × List Char × List Nat)) : String :=
   let fs := files.map fun (n, s, cuts) => (n, chunkAt s cuts)
-  " ".intercalate (runShow hx mode (mkConsole fs) [])
+  let side := match fs.find? (fun f => f.1 == "side") with | some f => f.2 | none => []
+  let cons := fs.filter fun f => f.1 != "side"
+  " ".intercalate (runProg hx mode pg { con := mkConsole cons, sideCur := side, sideFull := side })
 
 def cutsOfMask (n mask : Nat) : List Nat :=
   (List.range (n - 1)).filterMap fun k => if mask.testBit k then some (k + 1) else none
@@ -196,7 +270,12 @@ def witness (m : Matcher) (s : List Char) : String :=
 
 def step (_ : Unit) (line : String) : Unit × String :=
   match words line with
-  | kind :: modeS :: fileWs =>
+  | kind :: modeProg :: fileWs0 =>
+    let (modeS, pg) := match modeProg.splitOn "@" with
+      | [m, p] => (m, parseProg p)
+      | _ => (modeProg, ({} : Prog))
+    -- `%a` (an assignment in ARGV) and `%e` (an empty ARGV entry) are no files
+    let fileWs := fileWs0.filter fun w => !w.startsWith "%"
     match parseMode modeS, fileWs.mapM parseFile with
     | some mode, some bfiles =>
       -- byte kinds (getbline) see the bytes, the others the decoded characters
@@ -205,25 +284,31 @@ def step (_ : Unit) (line : String) : Unit × String :=
       -- below the std.c console handler the chunking is sio's: the model is run without cuts
       let nocuts := kind == "F" || kind == "G" || kind == "P" || kind == "Q" || kind == "Z"
       let files := bfiles.map fun (n, bs, cuts) => (n, if raw then rawChars bs else utf8Dec bs, if nocuts then [] else cuts)
-      if kind == "X" || kind == "Y" then
+      if kind == "U" then
+        -- bytes that are not UTF-8: what the decoder makes of them is not modelled; the check compares the real code with itself
+        match bfiles with
+        | (_, bs, _) :: _ => ((), "\n".intercalate ((List.range (2 ^ (bs.length - 1))).map fun mask => s!"m{mask} -"))
+        | _ => ((), "bad-case")
+      else if kind == "T" then ((), "-")
+      else if kind == "X" || kind == "Y" then
         match files with
-        | [(name, s, _)] =>
+        | (name, s, _) :: more =>
           let n := s.length
           let outs := (List.range (2 ^ (n - 1))).map fun mask =>
-            s!"m{mask} " ++ runCase hx mode [(name, s, cutsOfMask n mask)]
+            s!"m{mask} " ++ runCase hx mode pg ((name, s, cutsOfMask n mask) :: more)
           ((), "\n".intercalate outs)
         | _ => ((), "bad-case")
       else if kind == "Z" then
         match bfiles with
-        | [(_, bs, _)] =>
-          let o := runCase hx mode files
+        | (_, bs, _) :: _ =>
+          let o := runCase hx mode pg files
           ((), "\n".intercalate ((List.range (2 ^ (bs.length - 1))).map fun mask => s!"m{mask} " ++ o))
         | _ => ((), "bad-case")
       else if kind == "W" then
         match mode, files with
         | .regex m, [(_, s, _)] => ((), witness m s)
         | _, _ => ((), "bad-case")
-      else ((), runCase hx mode files)
+      else ((), runCase hx mode pg files)
     | _, _ => ((), "bad-case")
   | _ => ((), "bad-case")
 
